@@ -9,7 +9,9 @@ import traceback
 
 import common
 
-PATTERNS = ["picture_%d.raw", "p%03d.raw", "%d", "x_%d.json", "frame-%i.raw", "out.%d.dat", "%s.raw", "pic%x.raw"]
+PATTERNS = ["picture_%d.raw", "p%03d.raw", "%d", "x_%d.json", "frame-%i.raw", "out.%d.dat", "%s.raw", "pic%x.raw",
+            # directories (created by the harness) with dots, relative paths, no extension on the last component
+            "run.2/pic_%d", "./pic_%d", "v1.0/out/%d", "a.b/c.d/%03d.raw", "../SIB.x/p_%d", "dir/.hidden_%d", "dir/%d.tar.gz"]
 BAD_PATTERNS = ["picture.raw", "%d_%d.raw", "%(n)d.raw", "%z.raw", "100%.raw", "%"]
 
 
@@ -59,7 +61,15 @@ def one_case(job):
             res["status"] = "out-of-scope"
             return res
         res["verdict"] = verdict
-        argv = [path, "--no-status", "--output", os.path.join(d, pattern)]
+        # relative patterns are resolved against the case directory (each worker is its own process)
+        os.chdir(d)
+        pattern = pattern.replace("SIB", "sib%05d" % idx)
+        for sub in ("run.2", "v1.0/out", "a.b/c.d", "../sib%05d.x" % idx, "dir"):
+            os.makedirs(os.path.join(d, sub), exist_ok=True)
+        if not bad_pattern and not pattern.startswith((".", "/")) and rng.random() < 0.5:
+            pattern = os.path.join(d, pattern)   # absolute variant
+        res["pattern"] = pattern
+        argv = [path, "--no-status", "--output", pattern]
         if rng.random() < 0.3:
             argv.append("-v")
         rc, out, err = run_main(argv)
@@ -95,7 +105,7 @@ def one_case(job):
         # files: one pair per decoded picture (also for the pictures decoded before an error), numbered from 0
         if not isinstance(rc, str) and rc in (0, 2):
             for i, (pic, vp, pcm) in enumerate(out_pics):
-                fn = os.path.join(d, pattern % (i,))
+                fn = os.path.normpath(os.path.join(d, pattern % (i,)))
                 mf, pf = file_format.get_metadata_and_picture_filenames(fn)
                 if not (os.path.exists(mf) and os.path.exists(pf)):
                     res["problems"].append(("validator-picture-file-missing", "index %d (%s)" % (i, fn)))
@@ -103,7 +113,7 @@ def one_case(job):
                 rpic, rvp, rpcm = file_format.read(fn)
                 if not (common.pictures_equal(rpic, pic) and rpic["pic_num"] == pic["pic_num"] and dict(rvp) == dict(vp) and rpcm == pcm):
                     res["problems"].append(("validator-picture-file-differs-from-decoder-output", "index %d" % i))
-            extra = os.path.join(d, pattern % (len(out_pics),))
+            extra = os.path.normpath(os.path.join(d, pattern % (len(out_pics),)))
             mf, pf = file_format.get_metadata_and_picture_filenames(extra)
             if os.path.exists(mf) or os.path.exists(pf):
                 res["problems"].append(("validator-extra-picture-file", "index %d exists" % len(out_pics)))
@@ -118,7 +128,9 @@ def one_case(job):
         res["detail"] = traceback.format_exc()[-1200:]
         return res
     finally:
+        os.chdir("/")
         shutil.rmtree(d, ignore_errors=True)
+        shutil.rmtree(os.path.join(os.path.dirname(d), "sib%05d.x" % idx), ignore_errors=True)
 
 
 def run(ctx):
